@@ -637,6 +637,18 @@ func galoisForDiags(p rlwe.Parameters, diags []int) (galEls []uint64) {
 	return
 }
 
+// SIGNZERO control: the sign of the exponent is encoded as the sign of an index that starts at 0
+func signedLog(g uint64, n int) map[uint64]int {
+	m := map[uint64]int{}
+	var pow uint64 = 1
+	for i := 0; i < n; i++ {
+		m[pow] = i
+		m[uint64(4*n)-pow] = -i
+		pow *= g
+	}
+	return m
+}
+
 // ZEROCOND control: the negative case tests the index that has not been computed yet
 func wrapIndex(i, n int) int {
 	var j int
